@@ -129,9 +129,87 @@ def s2_handover_at_offset_zero(src):
               "records between the commit point and its start position are lost for the group", **info)
 
 
+def s3_commit_after_superseded_fetch(src):
+    """a fetch for a position that is no longer current (the application has sought elsewhere meanwhile) is answered
+    with an error: whatever the consumer does with that answer, commit() afterwards stores only what was delivered"""
+    import asyncio
+    import aiokafka.errors as E
+    from aiokafka.structs import TopicPartition
+    from env import simkafka, vloop
+    policy = ["latest", "earliest"][src.choice("policy", 2)]
+    delay = [0.0, 0.001, 0.002, 0.003, 0.005][src.choice("second_seek_after", 5)]
+    back_to = [3, 5][src.choice("seek_back_to", 2)]
+    cluster = simkafka.Cluster(nodes=(0, 1), topics={"t": 1})
+    for _ in range(10):
+        GO.append_record(cluster, ("t", 0))
+    res = {"got": []}
+    tp = TopicPartition("t", 0)
+
+    async def main(loop):
+        with simkafka.installed(cluster):
+            c = AIOKafkaConsumer(bootstrap_servers="h0:9092", group_id="g", enable_auto_commit=False, auto_offset_reset=policy,
+                                 fetch_max_wait_ms=50, request_timeout_ms=1000, retry_backoff_ms=20,
+                                 session_timeout_ms=3000, heartbeat_interval_ms=500)
+            c.subscribe(["t"])
+            await c.start()
+            try:
+                await asyncio.wait_for(c.getmany(timeout_ms=100), 2)
+                c.seek(tp, 2)
+                await asyncio.wait_for(c.getmany(timeout_ms=100, max_records=1), 2)
+                c.seek(tp, 60)        # beyond the log end: the fetch for it will be answered OFFSET_OUT_OF_RANGE
+                blocked = asyncio.ensure_future(c.getmany(timeout_ms=300, max_records=2))
+                await asyncio.sleep(delay)
+                sought = not blocked.done()
+                if sought:
+                    c.seek(tp, back_to)   # the application changes its mind before that answer arrives
+                res["sought"] = sought
+                t_end = loop.time() + 1.0
+                first = await blocked
+                res["got"] += [r.offset for rs in first.values() for r in rs]
+                while loop.time() < t_end and len(res["got"]) < 2:
+                    b = await c.getmany(timeout_ms=100, max_records=2)
+                    res["got"] += [r.offset for rs in b.values() for r in rs]
+                res["position"] = await asyncio.wait_for(c.position(tp), 3)
+                await c.commit()
+            except E.KafkaError as e:
+                res["exc"] = repr(e)
+            res["committed"] = cluster.group("g").offsets.get(("t", 0), (None, ""))[0]
+            try:
+                await asyncio.wait_for(c.stop(), 10)
+            except (asyncio.TimeoutError, asyncio.CancelledError, Exception):  # noqa: BLE001
+                pass
+
+    try:
+        vloop.run(main, max_vtime=120)
+    except vloop.Deadlock as e:
+        res["deadlock"] = str(e)
+    info = dict(policy=policy, second_seek_after=delay, seek_back_to=back_to, observed={k: v for k, v in res.items()})
+    src.note(info)
+    src.check("deadlock" not in res, "consumer did not settle: " + str(res.get("deadlock")), **info)
+    if not res.get("sought") or "exc" in res:
+        return  # the out-of-range answer won the race (handled per policy) or was raised: not the history looked at here
+    got, committed = res["got"], res.get("committed")
+    want_next = (got[-1] + 1) if got else back_to
+    if src.twin:
+        want_next -= 1
+    src.check(got == list(range(back_to, back_to + len(got))), f"after seek({back_to}) the records delivered are {got}", **info)
+    src.check(committed is not None and committed <= want_next,
+              f"commit() stored offset {committed} although records from {want_next} on were never handed to the application", **info)
+
+
 def harnesses(tier):
     q = tier == "quick"
-    return _u1(tier) + _u2(tier) + _s2(tier) + _s1(tier)
+    return _u1(tier) + _u2(tier) + _s2(tier) + _s3(tier) + _s1(tier)
+
+
+def _s3(tier):
+    from aiokafka.consumer.fetcher import Fetcher
+    return [Harness(
+        name="S3_commit_after_superseded_fetch", fn=s3_commit_after_superseded_fetch,
+        functions=[Fetcher._proc_fetch_request, GroupCoordinator.commit_offsets], shape="S",
+        symbolic_vars="choices: reset policy, when the second seek lands relative to the out-of-range fetch (5 delays), where it seeks back to",
+        bounds={"records": 10, "partitions": 1}, stubs=["SimConn broker + group coordinator model", "virtual-time loop"],
+        max_seconds=300, twin_max_paths=100)]
 
 
 def _s2(tier):
